@@ -77,6 +77,9 @@ func Check(w *symex.World, plan *Plan, opt Options) int {
 	var samples []sample
 	for i, jr := range results {
 		ex := jr.Exp
+		if opt.Verbose {
+			fmt.Printf("JOB %s: %s panics=%v\n", jr.Job.Key(), ex.Summary(), ex.PanicsSeen)
+		}
 		for _, in := range ex.Incon {
 			incon = append(incon, fmt.Sprintf("%s: %s [%s]", jr.Job.Key(), in.What, in.Site))
 		}
@@ -295,12 +298,29 @@ func Check(w *symex.World, plan *Plan, opt Options) int {
 		return 1
 	}
 	if len(incon) > 0 {
-		for i, s := range incon {
-			if i >= 25 {
-				fmt.Printf("  ... %d more\n", len(incon)-i)
+		groups := map[string]int{}
+		first := map[string]string{}
+		var order []string
+		for _, s := range incon {
+			k := s
+			if j := strings.Index(s, "}: "); j >= 0 && j < 300 {
+				k = s[j+3:]
+			}
+			if len(k) > 160 {
+				k = k[:160]
+			}
+			if groups[k] == 0 {
+				order = append(order, k)
+				first[k] = s
+			}
+			groups[k]++
+		}
+		for i, k := range order {
+			if i >= 12 {
+				fmt.Printf("  ... %d more kinds\n", len(order)-i)
 				break
 			}
-			fmt.Println("INCONCLUSIVE:", s)
+			fmt.Printf("INCONCLUSIVE x%d: %.900s\n", groups[k], first[k])
 		}
 		return 2
 	}
